@@ -1691,16 +1691,31 @@ class Quantity(metaclass=QuantityMeta):
     def __rtruediv__(self, other: Any) -> Quantity:
         """other / self"""
         if isinstance(other, Rational):
-            return (other / self.amount) * self.unit ** -1
+            return self._scaled_pow(-1, other)
         if isinstance(other, Real):
-            return (other / Decimal(self.amount)) * self.unit ** -1
+            return self._scaled_pow(-1, Decimal(other))
         return NotImplemented
 
     def __pow__(self, exp: int) -> Quantity:
         """self ** exp"""
         if not isinstance(exp, int):
             return NotImplemented
-        return self.amount ** exp * self.unit ** exp
+        return self._scaled_pow(exp, ONE)
+
+    def _scaled_pow(self, exp: int, factor: Rational) -> Quantity:
+        """factor * self ** exp"""
+        if exp == 0 or exp == 1:
+            return factor * self.amount ** exp * self.unit ** exp
+        # The resulting quantity may get quantized. Therefore we
+        # have to calculate the final amount before creating the result!
+        res_def = UnitDefT(((self.unit, exp),))
+        try:
+            amnt, unit = _amnt_and_unit_from_term(res_def)
+        except KeyError:
+            raise UndefinedResultError(operator.pow,
+                                       self.__class__.__name__, exp) \
+                from None
+        return (factor * self.amount ** exp * amnt) * unit
 
     def __round__(self: Q, n_digits: int = 0) -> Q:
         """Return copy of `self` with its amount rounded to `n_digits`.
